@@ -192,8 +192,12 @@ class SimpleLoop(Loop[World]):
 
         See :meth:`Loop.start` for more details.
         """
-        super().start()
-        self.last_timestamp = None
+        # Reset the timestamp even if an exception other than Quit
+        # propagates, so that a restarted loop begins with a dt of 0
+        try:
+            super().start()
+        finally:
+            self.last_timestamp = None
 
     def loop(self):
         """Simple main loop.
